@@ -31,6 +31,8 @@ def op(o):
         f = o.get("fault")
         if f and f.get("cancel"):
             raise ValueError("cancel ops are expanded by ops_and_codes")
+        if f and f.get("hide"):
+            return "OHidden (mkBlock %s %s)" % (cN(o["num"]), clist([ev(e) for e in o.get("events") or []]))
         if f and f.get("read"):
             f = None     # a slow statement with concurrent readers: the block itself is processed without fault
         fs = "None" if not f else "(Some (%s, %d%%nat))" % (TABLES[f["table"]], f["k"])
